@@ -30,7 +30,12 @@ TimerClause(e, p, b, n, n2) ==
       clearedByIns == e.kind = "CLRISR" /\ Bit(e.clr, b) = 1
       newly == Bit(a.isr, b) = 0 /\ Bit(z.isr, b) = 1 /\ e.kind # "RAISE"
   IN IF p > 0 /\ n > 0 /\ n2 > 0
-     THEN IF ~(n2 >= n /\ (n2 - n) % p = 0) THEN "PhasePreserved"
+     THEN \* C12 / Machine.tla OffFreezes, in the form the sentence "a powered-off CPU stops both timers" has: over a step that
+          \* begins and ends powered off the remaining count of a live timer is unchanged and its status bit does not rise
+          \* (whether the machine freezes its cycle counter or slides the deadlines along with it is its own business)
+          IF a.pw = "off" /\ z.pw = "off"
+          THEN (IF (n2 - c2 # n - c) \/ newly THEN "OffFreezes" ELSE "ok")
+          ELSE IF ~(n2 >= n /\ (n2 - n) % p = 0) THEN "PhasePreserved"
           ELSE IF n2 > n /\ ~(Bit(z.isr, b) = 1 \/ clearedByIns) THEN "FireSetsStatus"
           ELSE IF newly /\ ~(n2 > n /\ n <= c2) THEN "FiredOnlyAtBoundary"
           ELSE IF n2 > n /\ ~(n2 - p <= c2) THEN "NoBoundarySkipped"
